@@ -85,7 +85,8 @@ def run_coneqp(cfg, Wd, A, mk, assume, cap):
         cap['k'] = k
         yield k
         raise Cut('second iteration')
-    def vp_havoc(which, loc):
+    def vp_havoc(which, loc, names):
+        from vp.pysym.loader import havoc_result
         if which != 'coneqp': raise RuntimeError('unexpected havoc site ' + which)
         for nm in ('x', 'y', 's', 'z'):
             m = loc[nm]
@@ -93,7 +94,10 @@ def run_coneqp(cfg, Wd, A, mk, assume, cap):
         s = [num(loc['s'][i]) for i in range(len(loc['s']))]
         z = [num(loc['z'][i]) for i in range(len(loc['z']))]
         assume(O.in_cone(A, s, dims, 0, strict=True)); assume(O.in_cone(A, z, dims, 0, strict=True))   # I3
-        return H.wrap_num(Wd, O.sdot(A, s, z, dims, 0))                                               # I2
+        vals = {'gap': H.wrap_num(Wd, O.sdot(A, s, z, dims, 0))}                                      # I2
+        extra = cap.get('havoc_extra')
+        if extra is not None: vals.update(extra(loc))
+        return havoc_result(loc, names, vals)
     def vp_ret(val, loc):
         cap['locals'] = dict(loc); return val
     mod.__dict__['__vp_iters__'] = vp_iters; mod.__dict__['__vp_havoc__'] = vp_havoc; mod.__dict__['__vp_ret__'] = vp_ret
